@@ -464,7 +464,14 @@ func Gate(fn *ssa.Function, g Guard, success SuccessFn) GateResult {
 // repository (a strategy object), or a call of a function value taken from a table (a list or
 // struct of functions: stages, rules). Exported interfaces (PDU, IRoomVersion, ...) are API with
 // a meaning of their own and do not count. Returns a description, or "".
-func OpaqueDispatch(fn *ssa.Function) string {
+func OpaqueDispatch(fn *ssa.Function) string { return opaqueDispatch(fn, true) }
+
+// OpaqueDispatchAny is OpaqueDispatch without the requirement that the dispatched step can
+// report a verdict, and it also counts calls of function-typed parameters and captured
+// function variables (steps handed to a driver as closures): for rules about which steps run.
+func OpaqueDispatchAny(fn *ssa.Function) string { return opaqueDispatch(fn, false) }
+
+func opaqueDispatch(fn *ssa.Function, verdictOnly bool) string {
 	var fromTable func(v ssa.Value, depth int) bool
 	fromTable = func(v ssa.Value, depth int) bool {
 		if depth > 8 || v == nil {
@@ -564,7 +571,7 @@ func OpaqueDispatch(fn *ssa.Function) string {
 	}
 	for _, dc := range AllDeepCalls(fn, exportedFunc) {
 		cm := dc.Call.Common()
-		if !reports(cm.Signature()) {
+		if verdictOnly && !reports(cm.Signature()) {
 			continue
 		}
 		if cm.IsInvoke() {
@@ -584,6 +591,18 @@ func OpaqueDispatch(fn *ssa.Function) string {
 		}
 		if fromTable(cm.Value, 0) {
 			return "a call of a function value taken from a table"
+		}
+		if !verdictOnly {
+			switch x := cm.Value.(type) {
+			case *ssa.Parameter:
+				return "a call of the function-valued parameter " + x.Name()
+			case *ssa.UnOp:
+				if _, isFV := x.X.(*ssa.FreeVar); isFV {
+					if closureTarget(cm.Value) == nil {
+						return "a call of a captured function variable"
+					}
+				}
+			}
 		}
 		// a function-valued field of an unexported struct type of the repository (a layout or
 		// strategy record)
